@@ -24,6 +24,7 @@ import (
 
 	"verif/harness/api"
 	"verif/harness/h"
+	_ "verif/harness/warm"
 	"verif/harness/keys"
 	"verif/harness/tok"
 	"verif/harness/val"
